@@ -217,6 +217,9 @@ def run_call(kind, cs, fault, at, children=(), outer='latin1'):
                 m = mido.Message('clock', time=1)
                 realised = True
             tr.append(m)
+        # an empty text is a text too: its encoding in the file's charset (a byte order mark in
+        # utf-16) is what the file holds
+        tr.append(mido.MetaMessage('marker', text='', time=0))
         if children:
             def gen(msgs=list(tr)):
                 for k, m in enumerate(msgs):
@@ -257,6 +260,9 @@ def run_call(kind, cs, fault, at, children=(), outer='latin1'):
             data = buf.getvalue()
             if data.count(TEXTS[cs].encode(cs)) != 3:
                 probs.append(('save-bytes/' + cs, 'saved bytes do not contain the text encoded in %s' % cs))
+            empty = ''.encode(cs)
+            if (b'\xff\x06' + vlq(len(empty)) + empty + b'\x00\xff\x2f') not in data:
+                probs.append(('save-bytes-empty-text/' + cs, "an empty marker is not written as ''.encode(%r) = %r" % (cs, empty)))
             try:
                 back = mido.MidiFile(file=io.BytesIO(data), charset=cs)
                 texts = [m.text for m in back.tracks[0] if m.type == 'text']
